@@ -80,20 +80,29 @@ class Canon:
         a, b = p.all_coeffs()
         return a, b
 
+    def _fail(self, code, loc):
+        self.why = 'items#%d f=%s term=%s' % (code, str(loc.get('f'))[:60], str(loc.get('term'))[:80])
+        return None
+
     def items(self, e):
         """-> (items, guarded, all_regular_terms_stepped) or None if the shape is not understood"""
         S, t = self.S, self.t
         guarded = False
         if isinstance(e, S.Piecewise):
             if len(e.args) != 1:
-                return None
+                return self._fail(1, locals())
             ex, cond = e.args[0]
             if cond != (t >= 0):
-                return None
+                return self._fail(2, locals())
             e, guarded = ex, True
         if e.has(S.Piecewise) or e.has(S.Integral) or e.has(S.Sum) or e.has(S.Derivative):
-            return None
-        e = e.rewrite(S.exp) if (e.has(S.sin) or e.has(S.cos) or e.has(S.sinh) or e.has(S.cosh)) else e
+            return self._fail(3, locals())
+        # trigonometric / hyperbolic functions as exponentials (only these: a blanket rewrite(exp) would also turn
+        # powers of complex numbers into polar form)
+        e = e.replace(S.sin, lambda a: (S.exp(S.I * a) - S.exp(-S.I * a)) / (2 * S.I))
+        e = e.replace(S.cos, lambda a: (S.exp(S.I * a) + S.exp(-S.I * a)) / 2)
+        e = e.replace(S.sinh, lambda a: (S.exp(a) - S.exp(-a)) / 2)
+        e = e.replace(S.cosh, lambda a: (S.exp(a) + S.exp(-a)) / 2)
         e = S.expand(e)
         out = []
         stepped = True
@@ -107,7 +116,7 @@ class Canon:
                 if not f.has(t):
                     v = self.const_value(f)
                     if v is None:
-                        return None
+                        return self._fail(4, locals())
                     C = (C[0] * v[0] - C[1] * v[1], C[0] * v[1] + C[1] * v[0])
                 elif f == t:
                     k += 1
@@ -117,47 +126,47 @@ class Canon:
                     arg = f.args[0] if isinstance(f, S.exp) else f.exp
                     ab = self.lin(arg)
                     if ab is None:
-                        return None
+                        return self._fail(5, locals())
                     a_tot += ab[0]
                     b_tot += ab[1]
                 elif isinstance(f, S.Heaviside):
                     ab = self.lin(f.args[0])
                     if ab is None or ab[0] != 1:
-                        return None
+                        return self._fail(6, locals())
                     steps.append(-ab[1])
                 elif isinstance(f, S.DiracDelta):
                     ab = self.lin(f.args[0])
                     if ab is None or ab[0] != 1 or delta is not None:
-                        return None
+                        return self._fail(7, locals())
                     delta = (-ab[1], int(f.args[1]) if len(f.args) > 1 else 0)
                 else:
-                    return None
+                    return self._fail(8, locals())
             if delta is not None:
                 if k != 0 or a_tot != 0 or steps:
-                    return None
+                    return self._fail(9, locals())
                 d = self.num(delta[0])
                 bb = self.const_value(S.exp(b_tot)) if b_tot != 0 else (Fraction(1), Fraction(0))
                 if d is None or bb is None:
-                    return None
+                    return self._fail(10, locals())
                 c = (C[0] * bb[0] - C[1] * bb[1], C[0] * bb[1] + C[1] * bb[0])
                 out.append('dl %s %d %s' % (gq(c), delta[1], gq(d)))
                 continue
             if steps:
                 dn = [self.num(x) for x in steps]
                 if any(x is None or x[1] != 0 for x in dn):
-                    return None
+                    return self._fail(11, locals())
                 d = max(x[0] for x in dn)
             else:
                 d = Fraction(0)
                 stepped = False
             p = self.num(a_tot)
             if p is None:
-                return None
+                return self._fail(12, locals())
             # C * t^k * exp(a t + b) u(t-d) = C e^{b + a d} ((t-d)+d)^k e^{a (t-d)} u(t-d)
             q = S.expand(b_tot + a_tot * S.Rational(d.numerator, d.denominator))
             ev = self.const_value(S.exp(q)) if q != 0 else (Fraction(1), Fraction(0))
             if ev is None:
-                return None
+                return self._fail(13, locals())
             c0 = (C[0] * ev[0] - C[1] * ev[1], C[0] * ev[1] + C[1] * ev[0])
             for i in range(k + 1):
                 if d == 0 and i != k:
@@ -458,12 +467,13 @@ def run(chk, replay=None):
                                     'spec': 'a returned closed form must be a time function whose forward transform is the input'},
                                    'inverse transform returned nan / zoo')
                 continue
-            cn = Canon(S, tsym, smp).items(res)
+            cnv = Canon(S, tsym, smp)
+            cn = cnv.items(res)
             if cn is None:
                 chk.case(canon_key, False)
                 chk.count('degenerate', 'result-shape-not-canonicalised')
                 if len(chk.coverage['correspondence']['diagnostics']) < 8:
-                    chk.coverage['correspondence']['diagnostics'].append('not canonicalised: %s %s -> %s' % (txt, kw, str(res)[:200]))
+                    chk.coverage['correspondence']['diagnostics'].append('not canonicalised (%s): %s %s -> %s' % (getattr(cnv, 'why', '?'), txt, kw, str(res)[:200]))
                 continue
             items, guarded, stepped = cn
             chk.case(canon_key, True)
